@@ -1,6 +1,140 @@
-import BstreamVerif.Model.Forkable
-import BstreamVerif.Spec.Consumer
+import BstreamVerif.Lemmas.ForkStep
+/-!
+# C01 — Undo/New discipline: a consumer always holds one valid parent-linked chain
+
+Model: `Forkable.processBlock` (`Model/Forkable.lean`, `Model/ForkDB.lean`), tied to `/repo/forkable` by the
+`forkable` correspondence suite. The consumer is `Forkable.CS`: it pushes on New (the block must name the current
+tip, or the LIB when nothing is pending, as its parent), pops on Undo (the block must be the current tip) and drops
+its oldest pending block on Irreversible.
+
+Scope of the unbounded theorems: a forkable that knows its LIB and does not wait for an inclusive starting block
+(`Inv`), a handler that sees New, Undo and Irreversible steps, incoming blocks with non-empty ids (`WFin`), heights
+that grow along parent links (`HB`) and LIB declarations that name the height of an ancestor (`LibDeclOK`).
+`SentClosed` ("a delivered block was delivered together with its ancestors above the LIB") is carried as a
+hypothesis on each state of the history: its preservation is not proved here (it needs "a purged block never
+comes back", i.e. global consistency of ids and heights of the history); the driver evaluates a sound Boolean
+check of every hypothesis on every model state of every run and reports how many steps were inside the theorem's
+hypotheses. LIB discovery and the inclusive starting block are covered by the correspondence and the trace
+monitors only (`step_discipline_partial` in the sense of DESIGN §6).
+-/
 namespace BstreamVerif.Props.C01
-open BstreamVerif BstreamVerif.Forkable BstreamVerif.Consumer
+open BstreamVerif BstreamVerif.Forkable BstreamVerif.ForkDB
+
+/-- hypotheses on one step -/
+def StepOK (s : FState) (b : Blk) : Prop :=
+  SentClosed s.db ∧ WFin b ∧ HB s.db b ∧ LibDeclOK s.db b
+
+/-- hypotheses along a history -/
+def HistOK (cfg : Config) : FState → List Blk → Prop
+  | _, [] => True
+  | s, b :: r => StepOK s b ∧ HistOK cfg (processBlock cfg s b none).1 r
+
+/-- **one incoming block** (whatever it is: new head, fork block, duplicate, orphan, block below the LIB):
+    the delivered events keep the consumer on one parent-linked chain resting on the LIB — every New names the
+    current tip as parent, every Undo is the current tip, every Irreversible is the oldest pending block — and the
+    consumer ends exactly on the chain from the LIB to the last block sent. -/
+theorem step_discipline (cfg : Config) (hnew : cfg.matches .new = true) (hundo : cfg.matches .undo = true)
+    (hirr : cfg.matches .irreversible = true) (s : FState) (P : List Id) (b : Blk)
+    (hI : Inv s P) (hok : StepOK s b) :
+    ∃ P', (⟨s.db.libRef.id, P⟩ : CS).run (processBlock cfg s b none).2.1 =
+        some ⟨(processBlock cfg s b none).1.db.libRef.id, P'⟩ ∧
+      Inv (processBlock cfg s b none).1 P' :=
+  processBlock_step cfg hnew hundo hirr s P b hI hok.1 hok.2.1 hok.2.2.1 hok.2.2.2
+
+theorem runHistory_cons (cfg : Config) (s : FState) (b : Blk) (r : List Blk) :
+    runHistory cfg s (b :: r) =
+      ((runHistory cfg (processBlock cfg s b none).1 r).1,
+       (processBlock cfg s b none).2.1 ++ (runHistory cfg (processBlock cfg s b none).1 r).2) := by
+  have gen : ∀ (r : List Blk) (s : FState) (acc : List Event),
+      r.foldl (fun (acc : FState × List Event) b =>
+        ((processBlock cfg acc.1 b none).1, acc.2 ++ (processBlock cfg acc.1 b none).2.1)) (s, acc) =
+      ((runHistory cfg s r).1, acc ++ (runHistory cfg s r).2) := by
+    intro r
+    induction r with
+    | nil => intro s acc; simp [runHistory]
+    | cons x t ih =>
+      intro s acc
+      simp only [List.foldl_cons]
+      rw [ih]
+      unfold runHistory
+      simp only [List.foldl_cons, List.nil_append]
+      rw [ih (processBlock cfg s x none).1 (processBlock cfg s x none).2.1]
+      simp [runHistory]
+  unfold runHistory
+  simp only [List.foldl_cons, List.nil_append]
+  exact gen r _ _
+
+/-- **every history**: for any order, duplication, gaps or forking of the incoming blocks (within `HistOK`) the
+    whole event stream is accepted by the push/pop consumer, which always holds the chain from the LIB to the last
+    block sent. By induction over the history: no bound on its length or on the shape of the tree. -/
+theorem history_discipline (cfg : Config) (hnew : cfg.matches .new = true) (hundo : cfg.matches .undo = true)
+    (hirr : cfg.matches .irreversible = true) (h : List Blk) (s : FState) (P : List Id)
+    (hI : Inv s P) (hok : HistOK cfg s h) :
+    ∃ P', (⟨s.db.libRef.id, P⟩ : CS).run (runHistory cfg s h).2 =
+        some ⟨(runHistory cfg s h).1.db.libRef.id, P'⟩ ∧ Inv (runHistory cfg s h).1 P' := by
+  induction h generalizing s P with
+  | nil => exact ⟨P, rfl, hI⟩
+  | cons b r ih =>
+    obtain ⟨P1, hrun1, hI1⟩ := step_discipline cfg hnew hundo hirr s P b hI hok.1
+    obtain ⟨P2, hrun2, hI2⟩ := ih _ P1 hI1 hok.2
+    rw [runHistory_cons]
+    refine ⟨P2, ?_, hI2⟩
+    simp only
+    rw [run_append, hrun1]
+    exact hrun2
+
+/-- the invariant holds initially for a forkable started on a known (exclusive) LIB -/
+theorem init_inv (cfg : Config) (r : Ref) (hr : r.id ≠ "") (hroot : cfg.root = some (.exclusive r)) :
+    Inv (init cfg) [] := by
+  unfold init
+  rw [hroot]
+  refine ⟨rfl, hr, ⟨by simp [DB.initLIB, DB.empty], by simp [DB.initLIB, DB.empty]⟩,
+    ⟨by simp [DB.initLIB, DB.empty], by simp [DB.initLIB, DB.empty], by simp [DB.initLIB, DB.empty]⟩,
+    trivial, by simp, by simp, by simp, ?_, ?_, ?_⟩
+  · intro _; exact ⟨rfl, by simp [DB.initLIB, DB.empty]⟩
+  · intro c cs h; cases h
+  · intro i n hin
+    simp only [DB.initLIB, DB.empty, Option.some.injEq, Prod.mk.injEq] at hin
+    rw [← hin.1]; exact hr
+
+/-- and so does `SentClosed`: nothing is stored yet -/
+theorem init_sentClosed (cfg : Config) (r : Ref) (hroot : cfg.root = some (.exclusive r)) :
+    SentClosed (init cfg).db := by
+  unfold init
+  rw [hroot]
+  intro ids x hp _ _
+  rw [isPath_append] at hp
+  have := hp.2.2.1
+  simp [DB.find, DB.initLIB, DB.empty] at this
+
+/-- **feeding a stored block a second time delivers nothing** and leaves the state unchanged -/
+theorem refeed_delivers_nothing (cfg : Config) (s : FState) (b : Blk) (failAt : Option Nat)
+    (hstored : b.id ≠ b.parent ∧ b.id ≠ "" ∧ s.db.link b.id ≠ "")
+    (hni : (s.includeInit && s.lastSent.isNone && b.id == s.db.libRef.id) = false) :
+    (processBlock cfg s b failAt).1 = s ∧ (processBlock cfg s b failAt).2.1 = [] :=
+  processBlock_refeed cfg s b failAt ((addLink_exists_iff s.db b).mpr hstored) hni
+
+/-- a block that was just linked is stored: feeding it again is the case above -/
+theorem linked_block_is_stored (db : DB) (b : Blk) (hb : WFin b) (hf : db.find b.id = none) :
+    (appendBlk db b).link b.id ≠ "" := by
+  unfold DB.link appendBlk
+  rw [find_append_self db b hf]
+  exact hb.2.1
+
+/-- a block below the LIB is dropped once the stream has started -/
+theorem below_lib_dropped (cfg : Config) (s : FState) (b : Blk) (failAt : Option Nat)
+    (h1 : b.num < s.db.libRef.num) (h2 : s.lastSent.isSome = true) :
+    (processBlock cfg s b failAt).1 = s ∧ (processBlock cfg s b failAt).2.1 = [] :=
+  processBlock_below_lib cfg s b failAt h1 h2
+
+/-- **a handler error is returned to the source at once, with no further event for that incoming block**:
+    the failing run delivered exactly the events up to and including the one the handler refused. Holds for every
+    state and block, with no hypothesis. -/
+theorem handler_error_returned_at_once (cfg : Config) (s : FState) (b : Blk) (k : Nat) :
+    (k < (processBlock cfg s b none).2.1.length →
+      (processBlock cfg s b (some k)).2.1 = (processBlock cfg s b none).2.1.take (k + 1) ∧
+      (processBlock cfg s b (some k)).2.2 = .errHandler) ∧
+    (¬ k < (processBlock cfg s b none).2.1.length → processBlock cfg s b (some k) = processBlock cfg s b none) :=
+  processBlock_handler_error cfg s b k
 
 end BstreamVerif.Props.C01
